@@ -5,6 +5,7 @@ from sa.rules import backend as B
 from sa.rules import bounds_rules as R
 from sa.rules import cpp_rules as C
 from sa.rules import ranges as RG
+from sa.rules import synth_rules as SY
 
 
 def main(tier):
@@ -20,7 +21,10 @@ def main(tier):
             "synthetics and the C++ name table (R-DOLLAR); the field accessor returns a real view only under "
             "has_field ∧ offset/size known ∧ non-negative, passes (offset, size) in that order and otherwise returns "
             "the null view (R-ACCESSOR); existence/Ok checks and text I/O follow fields_in_dependency_order "
-            "(R-DEPORDER); every runtime name the generator emits exists (R-RTSYMS); the C++ type in which an operation is "
+            "(R-DEPORDER); the expressions synthesised for $size_in_*, $max/min_size_in_*, $next and anonymous-bits aliases "
+            "have the documented shape (`$max(0, exists ? start + size : 0, ...)` over every non-virtual field, upper/lower "
+            "bound of the size in the same unit) and each placeholder of a skeleton is filled with the quantity it names "
+            "(R-SYNTH); every runtime name the generator emits exists (R-RTSYMS); the C++ type in which an operation is "
             "carried out is chosen from the ranges of the result and of every operand (R-INTERMEDIATE) and each C++ integer "
             "type is selected exactly for the value range it holds (R-INTRANGE, constant folding of the range tests). "
             "Not decided: offset/size arithmetic, size = max end, parameters, [requires], prefix-monotonicity."),
@@ -32,6 +36,7 @@ def main(tier):
     chk.run("R-ACCESSOR", B.accessor, r, floor=5)
     chk.run("R-DEPORDER", B.deporder, r, floor=3)
     chk.run("R-RTSYMS", C.rtsyms, r, cx.cpp, cx.templates, floor=10)
+    chk.run("R-SYNTH", SY.synth, r, floor=12)
     chk.run("R-INTERMEDIATE", RG.intermediate, r, floor=2)
     chk.run("R-INTRANGE", RG.intrange, r, floor=190)
     return chk.finish()
